@@ -108,6 +108,34 @@ def one_chain(ctx, cid, rng, idx):
         orig_of = {nm: nm for nm in names}      # current name -> original name
         history = [list(cur)]
         for s in range(steps):
+            if rng.random() < 0.3:
+                # a map the format cannot store (names are ASCII): if it is refused, nothing may have changed
+                victim = cur[int(rng.integers(len(cur)))]
+                badmap = {victim: ["chr\u03bc", "\u67d3\u8272\u4f53", "chrom\u00e9"][int(rng.integers(3))]}
+                if len(cur) > 1 and rng.random() < 0.5:
+                    other = [x for x in cur if x != victim][0]
+                    badmap = {other: other + "_ok", **badmap}
+                before = h5state.digest_uri(path, group)
+                try:
+                    cooler.rename_chroms(clr, badmap)
+                    refused = False
+                except (UnicodeError, ValueError, TypeError):
+                    refused = True
+                if refused:
+                    c.feature("map:unstorable-name-refused")
+                    try:
+                        after = h5state.digest_uri(path, group)
+                        names_now = cooler.Cooler(uri).chromnames
+                    except Exception as e:  # noqa
+                        after, names_now = f"unreadable: {type(e).__name__}: {e}", None
+                    if not c.check(after == before and names_now == cur and clr.chromnames == cur,
+                                   "refused-rename-changed-the-file",
+                                   f"rename_chroms({badmap}) was refused, but the collection is not what it was before the "
+                                   f"call (names now {names_now}, expected {cur}; {after if isinstance(after, str) and after.startswith('unreadable') else 'content digest differs' if after != before else ''})"):
+                        break
+                else:
+                    c.feature("map:unstorable-name-accepted")
+                    cooler.rename_chroms(clr, {v: k_ for k_, v in badmap.items()})
             kind = ["swap", "longer", "shorter", "back", "partial", "reuse"][int(rng.integers(6))]
             mp = {}
             if kind == "swap" and len(cur) >= 2:
